@@ -186,9 +186,17 @@ def rule_settings(P) -> RuleResult:
             for fn in ('render_text', 'render_csv', 'render_rows'):
                 for f in rm.toplevel_funcs.get(fn, []):
                     consumed.update(a.arg for a in f.node.args.args + f.node.args.kwonlyargs)
-    shell_src = unparse(sh.tree)
+    # read by the shell: an attribute of that name is read in a method of a shell class (through self.settings or a local for it)
+    read_attrs = set()
+    for k in sh.classes.values():
+        if k.name == 'Settings':
+            continue
+        for meth in k.methods.values():
+            for n in ast.walk(meth.node):
+                if isinstance(n, ast.Attribute) and isinstance(n.ctx, ast.Load):
+                    read_attrs.add(n.attr)
     for name in fields:
-        if name in consumed or f'self.settings.{name}' in shell_src:
+        if name in consumed or name in read_attrs:
             res.ok({'setting': name, 'consumed': True})
         else:
             res.fail(f'{st.fq}.{name}', f'settings:unused:{name}', f'setting `{name}` is neither a keyword parameter of a renderer nor read by '
